@@ -161,6 +161,39 @@ def run_numeric(item):
                 sample=[repr(x.get('a')) for x in rows[:6]])
 
 
+def two_resource_case(item):
+    """one sort_rows step over a package of two resources that share the key field's NAME but not its kind (text in one,
+    numbers in the other, either order): each resource is sorted by its own keys - numerically where they are numbers"""
+    import random
+    from dataflows import Flow, sort_rows
+    from ..common import tuple_source
+    setup_repo()
+    r = random.Random(item['seed'])
+    texts = [dict(id=i + 1, a=''.join(r.choice('abz09 ') for _ in range(r.randint(0, 3)))) for i in range(r.randint(1, 12))]
+    nums = [dict(id=i + 1, a=r.choice([r.randint(-1000, 1000), r.uniform(-50, 50), r.randint(-9, 9)])) for i in range(r.randint(2, 12))]
+    order = item['order']
+    res = [('t', [('id', 'integer'), ('a', 'any')], texts), ('n', [('id', 'integer'), ('a', 'any')], nums)]
+    if order == 'numbers_first':
+        res = res[::-1]
+    try:
+        with contextlib.redirect_stdout(io.StringIO()):
+            ds = Flow(tuple_source(res), sort_rows('{a}', reverse=item['reverse'])).datastream()
+            got = {rr.res.name: [x['id'] for x in rr] for rr in ds.res_iter}
+    except Exception as e:
+        return dict(ok=False, why='raised %s: %s' % (type(e).__name__, str(e)[:160]))
+
+    def want(rows, key):
+        o = [x['id'] for x in sorted(rows, key=key)]          # sorted() is stable
+        return o[::-1] if item['reverse'] else o
+    wt = want(texts, lambda x: x['a'])
+    wn = want(nums, lambda x: exact(x['a']))
+    if got.get('t') != wt:
+        return dict(ok=False, why='the text resource is not in key order', got=got.get('t'), want=wt, keys=[x['a'] for x in texts])
+    if got.get('n') != wn:
+        return dict(ok=False, why='the numeric resource is not in numeric order', got=got.get('n'), want=wn, keys=[repr(x['a']) for x in nums])
+    return dict(ok=True)
+
+
 def probe_known(rep):
     """the two numeric deviations of the float64 key design: must be exactly the listed ones"""
     setup_repo()
@@ -235,6 +268,15 @@ def run():
         # above the 10240-entry cache in both directions (the order must not depend on whether the data fits in memory)
         nitems += [dict(seed=r.randrange(10 ** 9), mode='big', n=2500), dict(seed=r.randrange(10 ** 9), mode='big', n=10500, reverse=True),
                    dict(seed=r.randrange(10 ** 9), mode='big', n=10500, reverse=False)]
+    titems = [dict(seed=r.randrange(10 ** 9), order=o, reverse=rv) for o in ('text_first', 'numbers_first') for rv in (False, True)
+              for _ in range(6 if t == 'quick' else 60)]
+    for it, out in zip(titems, pmap(two_resource_case, titems, chunksize=4)):
+        if '__harness_error__' in out:
+            raise tlc.MachineryError('harness error in two-resource sorts: ' + out['__harness_error__'])
+        rep.count(1, traces=1)
+        rep.mark_distinct(dict(two=it))
+        if not out['ok']:
+            rep.violation(dict(two=it), dict(case=it, **{k: v for k, v in out.items() if k != 'ok'}), category='two-resources/%s' % out['why'][:40])
     recs = pmap(run_numeric, nitems, chunksize=4)
     errs = harness_errors(recs)
     if errs:
@@ -276,7 +318,11 @@ def replay(path):
     setup_repo()
     rec = json.load(open(path))
     c = rec['case']
-    if 'variant' in c:
+    if 'two' in c:
+        out = two_resource_case(c['two'])
+        print(out)
+        bad = not out['ok']
+    elif 'variant' in c:
         out = replay_text(c)
         print(out)
         bad = not out['ok'] and not (out.get('prefix') and out.get('is_impl'))
